@@ -328,7 +328,7 @@ var verifFixedStatements = []string{
 // varied at a time (the others at their neutral value), so the space is the sum
 // of the feature spaces rather than their product.
 func verifLayoutInput() string {
-	feature := ndChoice("feature", 6)
+	feature := ndChoice("feature", 7)
 	lead, gap, trail := 0, 0, 0
 	switch feature {
 	case 0:
@@ -379,6 +379,17 @@ func verifLayoutInput() string {
 	}
 	if feature == 4 && len(s) > 0 {
 		s = s[:len(s)-1]
+	}
+	if feature == 6 {
+		// CRLF line endings (the lexer treats \r as white space)
+		out := ""
+		for i := 0; i < len(s); i++ {
+			if s[i] == '\n' {
+				out += "\r"
+			}
+			out += string(rune(s[i]))
+		}
+		s = out
 	}
 	return s
 }
